@@ -14,6 +14,7 @@ Deviations: DEV_FirstBoundDroppedWhenNotPositive (codegen), DEV_NaNInNoBucket
 """
 import json
 
+import covutil
 import vlib
 
 LEVEL = "model_checking"
@@ -118,8 +119,8 @@ def run(ctx):
         stage(ctx, binary, "decl2-3-obs4", 2, 3, 4, devs, seen, explained)
         stage(ctx, binary, "decl4-obs3", 4, 4, 3, devs, seen, explained)
         r = vlib.tlc(ctx, "MCBuckets", cfg(2, 3, 2, emit=False, invs=INVS[:-1]), label="Buckets-coverage", coverage=True, extra_files=MC)
-        if r.zero_cov:
-            raise vlib.InfraError("actions never taken in Buckets.tla: %s" % r.zero_cov)
+        if covutil.final_zero_cov(r.stdout):
+            raise vlib.InfraError("actions never taken in Buckets.tla: %s" % covutil.final_zero_cov(r.stdout))
     else:
         stage(ctx, binary, "decl2-4-obs2", 2, 4, 2, devs, seen, explained)
     for d in devs:
